@@ -462,3 +462,12 @@ func (p *Prog) funcDecl(pkgSuffix, recv, name string) (*ast.FuncDecl, *packages.
 	}
 	return nil, pk
 }
+
+// fnBase returns the declared name of a function, without the type arguments that go/ssa
+// appends to the names of instantiated generics.
+func fnBase(f *ssa.Function) string {
+	if f == nil {
+		return ""
+	}
+	return originFn(f).Name()
+}
